@@ -16,6 +16,7 @@ EXPLANATION = ("Protocol shape decided on all paths: (R07.1) cancel_stream clear
                "drop_resources -> report_stream_dropped -> vacant FIFO, for all 11 channels; nothing but the addressed flag is written by a cancel. Every channel's cancel_all_streams forwards to the manager's sweep.")
 EXPLANATION += " R07.2 checks the polarity of the sentinel test (the sweep is left on the sentinel side, cancels happen on the live side); R07.3 carries C04's R04.7 (complete wake primitive) and the lock discipline of R04.2; R07.4 also checks the answers of end_stream (true on the vacant exit, false on the timeout exit) and that the vacancy predicate compares a vacant id with the caller's stream id for equality."
 EXPLANATION += ' (R07.6) every executor the old/new spawners start is registered under the id of the very stream it consumes (cancel-by-name ends that stream): shared with C12 R12.10.'
+EXPLANATION += " R07.3 also imports C06's R06.1 for end_all_streams: every stream is told to end before the wait loop, whatever the timeout."
 ASSUMPTIONS = ["executors honour the Waker contract; a spurious will_wake answer of a foreign waker is outside the statement"]
 
 SM, STREAM = R.SM, R.STREAM
